@@ -266,6 +266,12 @@ def run(ctx):
                 names = [e.id for e in (node.args[1].elts if isinstance(node.args[1], ast.Tuple) else [node.args[1]]) if isinstance(e, ast.Name)]
                 ctx.ob("C20.R5", fi0, set(names) <= searchable, "%s._search descends only into classes that define _search (%s); anything else would raise AttributeError, which the blanket handler swallows together with the entry" % (cls, names), key="%s recursion guard" % cls, node=node)
                 ctx.ob("C20.R5", fi0, set(names) >= searchable, "%s._search descends into every searchable class %s (a guard naming only %s never searches the others, e.g. a list nested in a list)" % (cls, sorted(searchable), names), key="%s recursion guard complete" % cls, node=node)
+    # entries that cannot be searched (plain values) are skipped by a total handler, whatever they raise
+    fi_l, paths_l = own_method_paths(ctx, "ListContainer", "_search")
+    trs = uniq_events(paths_l, "TRY")
+    ctx.ob("C20.R5", fi_l, bool(trs) and all(any(set(h) & {"Exception", "BaseException", "*"} for h in t["handlers"]) for t in trs) or
+           any(isinstance(n, ast.Call) and isinstance(n.func, ast.Name) and n.func.id == "isinstance" for n in ast.walk(fi_l.node)),
+           "ListContainer._search skips unsearchable items with `except Exception` (an int item raises AttributeError, not a ConstructError)", key="ListContainer search handler")
     # the public functions call _search with the compiled pattern and the right mode: search -> first match, search_all -> all matches
     comp = ("call", ("attr", ("free", "re"), "compile"), (("param", "pattern"),), ())
     for cls in ("Container", "ListContainer"):
@@ -291,6 +297,12 @@ def run(ctx):
         fi, paths = own_method_paths(ctx, cls, "_search")
         tests = [g for p in paths for g in p.guards() if any(x[0] == "call" and x[1][0] == "attr" and x[1][2] == "_search" for x in N.walk(g))]
         ok = bool(tests) and len(marker) == 1 and all(g[0] == "cmp" and g[1] in ("is", "is not") and g[3] in marker for g in tests)
+        # polarity: the recursive result is used (returned / appended to the matches) exactly on the `is not <marker>` side
+        for p in paths:
+            used = (p.returns and any(x[0] == "call" and x[1][0] == "attr" and x[1][2] == "_search" for x in N.walk(p.retval or ()))) or \
+                any(e.kind == "MUT" and e["method"] in ("extend", "append") and any(x[0] == "call" and x[1][0] == "attr" and x[1][2] == "_search" for a in e["args"] for x in N.walk(a)) for e in p.events)
+            if used:
+                ok = ok and any(g[0] == "cmp" and g[1] == "is not" and g[3] in marker and any(x[0] == "call" and x[1][0] == "attr" and x[1][2] == "_search" for x in N.walk(g)) for g in p.guards())
         ctx.ob("C20.R5", fi, ok, "%s._search tests the recursive result by identity against the one 'no match' marker that _search returns (%s)" % (cls, sorted(N.show(m) for m in marker)), key="%s search none" % cls)
     unused_parameters(ctx, "C20.R5", lambda f: f.relpath.endswith(("lib/containers.py", "lib/hex.py")))
     byte_tables(ctx, "C20.R4", ("lib/hex.py",))
